@@ -1,11 +1,23 @@
 // SPDX-FileCopyrightText: 2023 Joshua Goins <josh@redstrate.com>
 // SPDX-License-Identifier: GPL-3.0-or-later
 
-use std::io::{Cursor, SeekFrom};
+use std::io::{Cursor, Read, Seek, SeekFrom};
 
 use crate::ByteSpan;
 use crate::crc::XivCrc32;
-use binrw::{BinRead, binread};
+use binrw::{BinRead, BinResult, Endian, VecArgs, binread};
+
+/// Reads `count` bytes without reserving `count` bytes up front: the counts of the shader blobs
+/// are `u32` fields of the file, so the buffer may only grow with the data that is really there.
+fn read_blob<R: Read + Seek>(reader: &mut R, _: Endian, args: VecArgs<()>) -> BinResult<Vec<u8>> {
+    let mut blob = Vec::new();
+    reader.take(args.count as u64).read_to_end(&mut blob)?;
+    if blob.len() == args.count {
+        Ok(blob)
+    } else {
+        Err(std::io::Error::from(std::io::ErrorKind::UnexpectedEof).into())
+    }
+}
 
 #[binread]
 #[br(little, import {
@@ -61,12 +73,14 @@ pub struct Shader {
     #[br(seek_before = SeekFrom::Start(shader_data_offset as u64 + data_offset as u64))]
     #[br(count = if is_vertex { 8 } else { 0 } )]
     #[br(restore_position)]
+    #[br(parse_with = read_blob)]
     pub additional_data: Vec<u8>,
 
     /// The HLSL bytecode of this shader. The DX level used varies.
     #[br(seek_before = SeekFrom::Start(shader_data_offset as u64 + data_offset as u64 + if is_vertex { 8 } else { 0 } ))]
     #[br(count = data_size)]
     #[br(restore_position)]
+    #[br(parse_with = read_blob)]
     pub bytecode: Vec<u8>,
 }
 
